@@ -94,6 +94,9 @@ type output struct {
 	ReuseParses  int64          `json:"reused_parsing_context_parses"`
 	DifferOK     int64          `json:"reuse_results_that_differ_bytewise_but_round_trip"`
 	NoEncodeInto int64          `json:"values_of_models_without_generated_encodeinto"`
+	HeldWires    int64          `json:"held_first_wires_recompared_after_a_second_encode"`
+	HeldValues   int64          `json:"held_first_values_recompared_after_a_second_parse"`
+	Pristine     int64          `json:"values_compared_with_a_pristine_twin_after_encoding"`
 	Error        string         `json:"error,omitempty"`
 }
 
@@ -368,6 +371,61 @@ type evalOpts struct {
 
 var insVal = []byte{0xde, 0xad}
 
+var nPristine int64
+
+// diffPristine is diffStruct without the fields the harness (signature) or the encoder's
+// documented contract (Interest name with digest handling: Init drops / replaces the
+// ParametersSha256Digest component, also in a nested Interest) may rewrite, at any depth.
+func diffPristine(m *Model, want, got reflect.Value, path string) string {
+	for _, f := range m.vf {
+		if d := diffP(f.td, want.Elem().Field(f.index), got.Elem().Field(f.index), path+"."+f.name); d != "" {
+			return d
+		}
+	}
+	return ""
+}
+
+func diffP(td *typeDesc, want, got reflect.Value, path string) string {
+	switch td.k {
+	case kSig, kIntName:
+		return ""
+	case kStruct:
+		if want.IsNil() != got.IsNil() {
+			return fmt.Sprintf("%s: want nil=%v got nil=%v", path, want.IsNil(), got.IsNil())
+		}
+		if want.IsNil() {
+			return ""
+		}
+		return diffPristine(td.sub, want, got, path)
+	case kSeq:
+		if want.Len() != got.Len() {
+			return fmt.Sprintf("%s: want %d elements got %d", path, want.Len(), got.Len())
+		}
+		for i := 0; i < want.Len(); i++ {
+			if d := diffP(td.elem, want.Index(i), got.Index(i), fmt.Sprintf("%s[%d]", path, i)); d != "" {
+				return d
+			}
+		}
+		return ""
+	case kMap:
+		if want.Len() != got.Len() {
+			return fmt.Sprintf("%s: want %d entries got %d", path, want.Len(), got.Len())
+		}
+		it := want.MapRange()
+		for it.Next() {
+			gv := got.MapIndex(it.Key())
+			if !gv.IsValid() {
+				return fmt.Sprintf("%s: key %v missing", path, it.Key())
+			}
+			if d := diffP(td.elem, it.Value(), gv, path+"[key]"); d != "" {
+				return d
+			}
+		}
+		return ""
+	}
+	return diff(td, want, got, path)
+}
+
 func posClass(ip *inspoint) string {
 	switch {
 	case ip.mapKV:
@@ -403,7 +461,30 @@ func evalCase(c *caseID, o evalOpts, st *modelStat) bool {
 		return true
 	}
 	failed := false
+	// "decoding reproduces the value": the value the caller handed to the encoder, not whatever
+	// the encoder left of it. e.v went through Init/Encode; a twin built the same way did not.
+	// The only field an encoder may rewrite is an Interest name under needDigest (its contract:
+	// the ParametersSha256Digest component is appended / replaced); the signature field is set by
+	// the harness itself.
+	atomic.AddInt64(&nPristine, 1)
+	if d := diffPristine(m, buildStruct(m, 0, c.base, c.devs, nil), e.v, m.Name); d != "" {
+		p := d
+		if i := strings.Index(p, ":"); i >= 0 {
+			p = p[:i]
+		}
+		if i := strings.LastIndex(p, "."); i >= 0 {
+			p = p[i:]
+		}
+		if i := strings.Index(p, "["); i >= 0 {
+			p = p[:i]
+		}
+		c.fail("C13.rt", "Init/Encode altered the value it was given at "+p, fmt.Sprintf("after encoder.Init(v); encoder.Encode(v) the value differs from an identically built one that was never encoded: %s", d), map[string]any{"encoded": hexBrief(b)})
+		failed = true
+	}
 	for _, ic := range []bool{false, true} {
+		if failed {
+			break
+		}
 		if sy, de := checkParse(m, m.Parse, b, ic, e.v); sy != "" {
 			c.fail("C13.rt", sy, fmt.Sprintf("parse(encode(v)) (ignoreCritical=%v): %s; encoding %s", ic, de, hexBrief(b)), map[string]any{"encoded": hexBrief(b), "ignoreCritical": ic})
 			failed = true
@@ -644,6 +725,7 @@ func main() {
 	out.SegParses, out.SegAllCuts, out.SegDirected, out.Seg3 = nSegParses, nSegAll, nSegDirected, nSeg3
 	out.SegSingle, out.SegSpan = nSegSingle, nSegSpan
 	out.DirtyEncodes, out.ReuseEncodes, out.ReuseParses, out.DifferOK, out.NoEncodeInto = nDirtyEncodes, nReuseEncodes, nReuseParses, nDifferButRoundTrip, nNoEncodeInto
+	out.HeldWires, out.HeldValues, out.Pristine = nHeldWires, nHeldValues, nPristine
 	a2, a3 := segLimits(thorough)
 	out.SegLimits = fmt.Sprintf("every 2-segment cut for encodings <= %d bytes, boundary-directed cuts (first/last 8 offsets, every element start/value-start/end of every nesting level and its two neighbours, the midpoint of every element value, every 1/16 of the length) above; every 3-segment cut pair for encodings <= %d bytes; plus the wire exactly as Encode() returned it, the all-1-byte-segments wire for encodings <= 4096 bytes, and for every opaque element value of >= 3 bytes at every nesting level 2 and 3 cuts strictly inside the value (byte-like values: all pairs <= 12 bytes, all triples <= 8 bytes; numbers and longer values: first+1/middle/last-1)", a2, a3)
 	out.Distinct = len(distinct)
